@@ -253,7 +253,9 @@ class SGen:
         return build(f, lambda: self.form(f, depth))
 
 
-SEPS = [" ", " ", " ", "\n", "\t", "  ", "\r\n", " \n ", "\f", " # c\n", "\n# set x \"y\";\n", " #\n", "\n\n"]
+SEPS = [" ", " ", " ", "\n", "\t", "  ", "\r\n", " \n ", "\f", " # c\n", "\n# set x \"y\";\n", " #\n", "\n\n",
+        # comments whose text looks like syntax (the one commented-out statement the grammar knows, block punctuation), lone CR
+        " # dns_resolver \"8.8.8.8\";\n", "\n#dns_resolver\n", " # dns_resolver\n", "\n# }\n", " # {\n", "\r", " \r "]
 
 
 def render(rng, toks, tight=0.3, messy=True) -> str:
@@ -410,6 +412,36 @@ def gen0(tier, rng, shard, nshards):
             g = SGen(rng, nasty=0.2 if rep == 0 else 0.5, star_max=2)
             toks = g.cover(f, depth=0 if rep == 0 else 1)
             yield from rt(toks, messy=rep > 0)
+    # (a2) profiles with MANY top-level statements (batch sizes of a formatter: 33, 34, 65, 97, 129 = 1 and 2 modulo 32 …)
+    tops = [f for f in TAB.forms if f.id not in UNLEXABLE]
+    for n_top in ([33, 34, 65, 97, 129, 64, 32] if thorough else [33, 65, 34]):
+        if not mine():
+            continue
+        def n_statements(ts):
+            # top-level statements: tokens at depth 0 ending in ';' or '}'
+            depth = cnt = 0
+            for kind, text in ts:
+                if kind == "kw" and text == "{":
+                    depth += 1
+                elif kind == "kw" and text == "}":
+                    depth -= 1
+                    cnt += depth == 0
+                elif kind == "kw" and text == ";" and depth == 0:
+                    cnt += 1
+            return cnt
+
+        toks, have = [], 0
+        for _try in range(20 * n_top):
+            if have == n_top:
+                break
+            g = SGen(rng, nasty=0.1, star_max=1)
+            part = g.cover(rng.choice(tops), depth=0)
+            c = n_statements(part)
+            if 0 < c <= n_top - have:
+                toks += part
+                have += c
+        if have == n_top:
+            yield from rt(toks, messy=False)
     # (b) blocks: empty, with / without variant, repeated
     for f in TAB.forms:
         items = f.lean_items()
@@ -1136,6 +1168,12 @@ def write_reference():
             ans = impl("rt", line)
             if oracle("rt", line, ans) is True:
                 out.append(hx(src))
+    for src in ['# dns_resolver "8.8.8.8";\nset sleeptime "1";', 'set sleeptime "1"; # dns_resolver\n', 'stage { # dns_resolver x\n set userwx "false"; }',
+                '#dns_resolver\nhttp-get { set uri "/a"; }', 'set jitter "1";\r# {\n', 'dns-beacon { # }\n set dns_idle "1.2.3.4"; }',
+                '#\nset sleeptime "1";', 'set sleeptime\f"1"\r;']:
+        line = "rt " + hx(src)
+        if oracle("rt", line, impl("rt", line)) is True:
+            out.append(hx(src))
     for opt in TAB.option_alts:      # every word of the OPTION terminal
         for lit in ('"x"', '"a b\\n"'):
             src = f"set {opt} {lit};"
